@@ -76,11 +76,26 @@ def parseChainOut (s : String) : Option (Option ChainOut) :=
 
 /-! merge wire format -/
 
+/-- decimal text with at most three fractional digits, in thousandths: `2.5` ↦ 2500, `-0.125` ↦ -125 -/
+def parseMilli (s : String) : Option Int :=
+  match s.splitOn "." with
+  | [i] => (canonInt i).map (· * 1000)
+  | [i, f] =>
+    if f.isEmpty || f.length > 3 || !f.all Char.isDigit || f.endsWith "0" then none else
+    let neg := i.startsWith "-"
+    let ip := if neg then (i.drop 1).toString else i
+    match canonInt ip, (f ++ String.ofList (List.replicate (3 - f.length) '0')).toNat? with
+    | some a, some b => some ((if neg then -1 else 1) * (a * 1000 + (b : Int)))
+    | _, _ => none
+  | _ => none
+
+def numOfMilli (m : Int) (isFloat : Bool) : V := if m % 1000 == 0 then .num (m / 1000) isFloat else .frac m
+
 def parseV (loaderFloat : Bool) (s : String) : Option V :=
   if s == "t" then some (.bool true) else if s == "b" then some (.bool false)
   else if s.startsWith "s" then some (.str (s.drop 1).toString)
   else if s.startsWith "n" then (canonInt (s.drop 1).toString).map fun n => .num n loaderFloat
-  else if s.startsWith "f" then (canonInt (s.drop 1).toString).map fun n => .num n true
+  else if s.startsWith "f" || s.startsWith "r" then (parseMilli (s.drop 1).toString).map fun m => numOfMilli m true
   else none
 
 def parseChains (loaderFloat : Bool) (s : String) : Option (List Chain) :=
@@ -89,8 +104,18 @@ def parseChains (loaderFloat : Bool) (s : String) : Option (List Chain) :=
     | k :: rest => (parseV loaderFloat ("=".intercalate rest)).map fun v => (k, v)
     | _ => none
 
+/-- Go `strconv.FormatFloat(x, 'g', -1, 64)` of milli/1000 for the small magnitudes generated -/
+def showMilli (m : Int) : String :=
+  let a := m.natAbs
+  let f := a % 1000
+  let fs := toString f
+  let fs := String.ofList (List.replicate (3 - fs.length) '0') ++ fs
+  let fs := String.ofList (fs.toList.reverse.dropWhile (· == '0')).reverse
+  (if m < 0 then "-" else "") ++ toString (a / 1000) ++ "." ++ fs
+
 def showV : V → String
   | .num n _ => s!"n{n}"
+  | .frac m => "r" ++ showMilli m
   | .str s => "s" ++ s
   | .bool true => "t"
   | .bool false => "b"
@@ -98,12 +123,35 @@ def showV : V → String
 def showChains (cs : List Chain) : String :=
   joinOr (cs.map fun c => joinOr ((c.map fun (k, v) => k ++ "=" ++ showV v).mergeSort (· ≤ ·)) ",") ";"
 
-/-- candidate chains as printed (numbers lose the int/float distinction: compare by shown value) -/
-def sameShown (a b : Option V) : Bool := a.map showV == b.map showV
+/-- printed chains lose the int / float64 distinction: the predicates are evaluated with it erased on all sides -/
+def normV : V → V
+  | .num n _ => .num n false
+  | v => v
 
-def PMergeShown (loc shared merged : Chain) : Bool :=
-  (loc.map (·.1) ++ shared.map (·.1) ++ merged.map (·.1)).all fun k => sameShown (merged.get k) (wanted loc shared k)
+def norm (c : Chain) : Chain := c.map fun (k, v) => (k, normV v)
 
+/-- some local entry holds an empty value where its shared partner has a visibly different one -/
+def hasClash (locals shareds : List Chain) : Bool :=
+  locals.any fun l =>
+    match shareds.find? (fun s => sameId (l.get "id") (s.get "id")) with
+    | some s => !noEmptyClashB (norm l) (norm s)
+    | none => false
+
+/-- the property predicate on the implementation's printed result: loading fails unless every local entry has a
+    shared entry of numerically equal id, and each result is the merge (`P` = PMerge or PMergeExc) with that entry -/
+def mergeOk (P : Chain → Chain → Chain → Bool) (locals shareds : List Chain) (impl : String) : Bool :=
+  if impl == "err" then
+    -- a failure is what the property demands exactly when some entry has no partner / no id / no type
+    (processChains mergeIdeal locals shareds).isNone
+  else
+    match parseChains false impl with
+    | some merged =>
+      merged.length == locals.length &&
+      (locals.zip merged).all fun (l, mg) =>
+        match shareds.find? (fun s => sameId (l.get "id") (s.get "id")) with
+        | some s => P (norm l) (norm s) (norm mg)
+        | none => false
+    | none => false
 
 /-! durations -/
 
@@ -212,23 +260,31 @@ def handle (op : String) (args : List String) (impl : String) : Option Verdict :
     if !(loader == "d" || loader == "f" || loader == "e") then return bad
     let some locals := parseChains (loader != "d") loc | return bad
     let some shareds := parseChains false sh | return bad
-    -- the expected outcome is the IDEAL merge (a written local value always wins); it equals the code's merge
-    -- except on the known-finding class (empty local value over a different shared value)
+    -- expected: the IDEAL merge (a written local value always wins); the generator sends inputs with an
+    -- empty-local-value clash to `mergeclash` / `mergeexc` instead, so here it coincides with the code's merge
     let want := processChains mergeIdeal locals shareds
     let m := match want with | some cs => showChains cs | none => "err"
-    let clash := locals.any fun l => shareds.any fun s => sameId (l.get "id") (s.get "id") && !noEmptyClashB l s
-    let ok := match want with
-      | none => impl == "err"
-      | some _ =>
-        match parseChains false impl with
-        | some merged =>
-          merged.length == locals.length &&
-          (locals.zip merged).all fun (l, mg) =>
-            match shareds.find? (fun s => sameId (l.get "id") (s.get "id")) with
-            | some s => PMergeShown l s mg
-            | none => false
-        | none => false
-    return ⟨m, ok, s!"merge:{loader}:{if want.isSome then "ok" else "err"}:chains={min locals.length 3}:clash={clash}"⟩
+    let fracId := locals.any fun l => match l.get "id" with | some (.frac _) => true | _ => false
+    return ⟨m, mergeOk PMerge locals shareds impl,
+      s!"merge:{loader}:{if want.isSome then "ok" else "err"}:chains={min locals.length 3}:fracid={fracId}:clash={hasClash locals shareds}"⟩
+  | "mergeclash", [loader, loc, sh] => some <| Id.run do
+    -- KNOWN FINDING class, strict predicate: the property demands the ideal merge
+    if !(loader == "d" || loader == "f" || loader == "e") then return bad
+    let some locals := parseChains (loader != "d") loc | return bad
+    let some shareds := parseChains false sh | return bad
+    if !hasClash locals shareds then return bad
+    let want := processChains mergeIdeal locals shareds
+    let m := match want with | some cs => showChains cs | none => "err"
+    return ⟨m, mergeOk PMerge locals shareds impl, s!"mergeclash:{loader}"⟩
+  | "mergeexc", [loader, loc, sh] => some <| Id.run do
+    -- the same inputs with the known point excused: expected = the code's merge as modelled (theorem merge_excused);
+    -- any OTHER deviation on such an input is an ordinary violation
+    if !(loader == "d" || loader == "f" || loader == "e") then return bad
+    let some locals := parseChains (loader != "d") loc | return bad
+    let some shareds := parseChains false sh | return bad
+    let want := processChains mergeChain locals shareds
+    let m := match want with | some cs => showChains cs | none => "err"
+    return ⟨m, mergeOk PMergeExc locals shareds impl, s!"mergeexc:{loader}:{if want.isSome then "ok" else "err"}:chains={min locals.length 3}"⟩
   | "dur", [field, loader, hex] => some <| Id.run do
     let some dflt := durDefault field | return bad
     if !(loader == "d" || loader == "f" || loader == "e") then return bad
